@@ -34,7 +34,7 @@ OFF, LEN = 42, 128
 
 
 def gen_cases(seed, tier):
-    n = 10 if tier == "quick" else 80
+    n = 10 if tier == "quick" else 240
     cases = [{"cls": "extract", "seed": seed * 1000 + i, "chunk": [500, 1000, 3000, 10000][i % 4], "_w": 6} for i in range(n)]
     cases += [{"cls": "loky", "seed": seed * 1000 + 300 + i, "counts": ([1, 3, 8] if tier == "quick" else [1, 2, 3, 4, 5, 6, 7, 8]), "_w": 14} for i in range(2 if tier == "quick" else 10)]
     cases += [{"cls": "params", "seed": seed * 1000 + 600 + i, "_w": 4} for i in range(2 if tier == "quick" else 12)]
